@@ -870,6 +870,11 @@ def gen_opaque(rng):
             npts = rng.randint(1, 4)
             coord = [[rng.uniform(-n, n) for n in g] for _ in range(npts)]
             p = dict(sh=sh, pts=[npts], coord=coord, width=rng.choice([2, 3, 4, 2.5]), param=rng.choice([1.0, 5.0, 9.1]))
+            if d > 1 and rng.random() < 0.5:
+                # per-axis widths / params (the kernels pair coord[..., -k] with width[-k], param[-k])
+                p["width"] = [rng.choice([1.5, 2, 3, 4, 2.5]) for _ in range(d)]
+                if rng.random() < 0.5:
+                    p["param"] = [rng.choice([1.0, 5.0, 9.1]) for _ in range(d)]
         elif kind == "findiff":
             sh = rshape(rng)
             p = dict(sh=sh, axes=None if rng.random() < 0.4 else rand_axes(rng, len(sh), allow_empty=False))
